@@ -897,9 +897,13 @@ func (t *Typechecker) checkFieldAccess(Lhs *ast.Ident, originalType ddptypes.Typ
 	}
 
 	// if the type was imported, check for public/private fields
-	if structDecl, exists, _ := t.CurrentTable.LookupDecl(structType.Name); exists {
-		structDecl := structDecl.(*ast.StructDecl)
-		if structDecl.Mod != t.Module {
+	// Kombinationen are declared globally, and their name may be shadowed by a variable of an inner scope
+	globalTable := t.CurrentTable
+	for globalTable.Enclosing() != nil {
+		globalTable = globalTable.Enclosing()
+	}
+	if decl, exists, _ := globalTable.LookupDecl(structType.Name); exists {
+		if structDecl, isStructDecl := decl.(*ast.StructDecl); isStructDecl && structDecl.Mod != t.Module {
 			for _, field := range structDecl.Fields {
 				if field.Name() == Lhs.Literal.Literal {
 					if field, ok := field.(*ast.VarDecl); ok && !field.IsPublic {
